@@ -88,4 +88,9 @@ def forecasters():
         [("p", TransformedTargetForecaster([("d", Detrender(PolynomialTrendForecaster(degree=1))),
                                             ("f", NaiveForecaster("last"))])),
          ("n", NaiveForecaster("mean", window_length=2))]), refit=False)
+    # a pipeline whose final step is itself a composite
+    add("pipe_of_ens", lambda: TransformedTargetForecaster(
+        [("d", Detrender(PolynomialTrendForecaster(degree=1))),
+         ("f", EnsembleForecaster([("a", NaiveForecaster("last")), ("b", NaiveForecaster("mean", window_length=3))]))]),
+        refit=False)
     return L
